@@ -8,7 +8,9 @@ checks, na = [], []
 for pid in ALL:
     try:
         m = importlib.import_module("harness.props." + pid.lower())
-    except ModuleNotFoundError:
+    except ModuleNotFoundError as e:
+        if e.name != "harness.props." + pid.lower():
+            raise        # a missing dependency (run this tool with /venv/bin/python), not a missing check
         na.append(dict(property_id=pid, reason="check not built yet in this round (planned in DESIGN.md section 6); nothing is claimed"))
         continue
     mf = m.MANIFEST
